@@ -77,8 +77,13 @@ pub fn format_all(directory: &Option<PathBuf>, args: &CliArguments) -> Result<Fo
         if !(entry.file_type().is_file() && entry.path().extension() == Some("typ".as_ref())) {
             continue;
         }
-        let Ok(content) = std::fs::read_to_string(entry.path()) else {
-            continue;
+        let content = match std::fs::read_to_string(entry.path()) {
+            Ok(content) => content,
+            Err(e) => {
+                error!("failed to read {}: {e}", entry.path().display());
+                summary.error_count += 1;
+                continue;
+            }
         };
         let cfg = args.style.to_config();
         let Ok(res) = Typstyle::new(cfg).format_content(&content) else {
